@@ -626,49 +626,52 @@ def line_margin(line, pdict):
 
 # --------------------------------------------------------------------------- three-zone truth
 # A relation evaluated in floating point is only decided away from its boundary.  With the
-# relative margin m of rel_margin / line_margin:
+# relative margin m of rel_margin / line_margin (|lhs - rhs| / sum of |terms|):
 #   inequalities   m >= hi: decided by the sign;  m < hi: NEAR (not decided)
-#   = / ==         m <= lo: holds;  m >= hi: fails;  between: NEAR       (!= the reverse)
-# In *exact* mode (all numbers short dyadics, see is_short_dyadic) the plain float
-# comparison is exact and is used instead.
+#   = / ==         m >= hi: fails;  m <= lo: holds *if the caller vouches for the point*
+#                  (eq_positive: a point constructed on the boundary, well conditioned);
+#                  otherwise NEAR.   != is the reverse.
+# Float arithmetic cannot establish that an equality holds (-4*x + 0.75 = 0.75 "holds" at
+# x = 4e-99 by absorption), hence eq_positive.  In *exact* mode (all numbers short dyadics,
+# see is_short_dyadic) and where every term on both sides is exactly 0 (scale == 0, e.g.
+# x1 > 0 at x1 = 0.0) the plain float comparison is exact and is used instead.
 NEAR = 'near'
 UNDEF = 'undef'
 BAND = (1e-11, 1e-9)
 
 
-def zone_truth(lv, cmp, rv, margin, exact=False, band=BAND, scale=None):
-    # scale == 0: every term on both sides is exactly 0 (x1 > 0 at x1 = 0.0): nothing rounds
+def zone_truth(lv, cmp, rv, margin, exact=False, band=BAND, scale=None, eq_positive=False):
     if exact or scale == 0:
         return compare(lv, cmp, rv)
     lo, hi = band
     if cmp in ('=', '==', '!='):
-        if margin <= lo:
-            return cmp != '!='
         if margin >= hi:
             return cmp == '!='
+        if margin <= lo and eq_positive:
+            return cmp != '!='
         return NEAR
     if margin < hi:
         return NEAR
     return compare(lv, cmp, rv)
 
 
-def rel_truth(rel, point, exact=False, band=BAND):
+def rel_truth(rel, point, exact=False, band=BAND, eq_positive=False):
     """True / False / NEAR / UNDEF for a relation tree at a point"""
     m = rel_margin(rel, point)
     if m is None:
         return UNDEF
     lv, rv = rel_sides(rel, point)
-    return zone_truth(lv, rel[2], rv, m, exact, band, magnitude(rel[1], point) + magnitude(rel[3], point))
+    return zone_truth(lv, rel[2], rv, m, exact, band, magnitude(rel[1], point) + magnitude(rel[3], point), eq_positive)
 
 
-def line_truth(line, pdict, exact=False, band=BAND):
+def line_truth(line, pdict, exact=False, band=BAND, eq_positive=False):
     """True / False / NEAR / UNDEF for one line of output text at a point"""
     try:
         lv, lm, cmp, rv, rm = line_sides_mag(line, pdict)
     except Undefined:
         return UNDEF
     m = 0.0 if lv == rv else (abs(lv - rv) / (lm + rm) if lm + rm > 0 else math.inf)
-    return zone_truth(lv, cmp, rv, m, exact, band, lm + rm)
+    return zone_truth(lv, cmp, rv, m, exact, band, lm + rm, eq_positive)
 
 
 def all_truth(values):
@@ -688,13 +691,13 @@ def any_truth(values):
     return False
 
 
-def text_truth(text, pdict, exact=False, band=BAND):
-    return all_truth(line_truth(l, pdict, exact, band) for l in text_lines(text))
+def text_truth(text, pdict, exact=False, band=BAND, eq_positive=False):
+    return all_truth(line_truth(l, pdict, exact, band, eq_positive) for l in text_lines(text))
 
 
-def system_truth(system, point, exact=False, band=BAND):
+def system_truth(system, point, exact=False, band=BAND, eq_positive=False):
     """UNDEF if any line is undefined (the point is outside the domain of the input)"""
-    vals = [rel_truth(r, point, exact, band) for r in system]
+    vals = [rel_truth(r, point, exact, band, eq_positive) for r in system]
     if UNDEF in vals:
         return UNDEF
     return all_truth(vals)
